@@ -649,8 +649,15 @@ class Message:
 
                 # FIXME: This sounds like it should be part of
                 # hpostportjoin/-split
+                if host.startswith("[") and host.endswith("]"):
+                    literal = host[1:-1]
+                else:
+                    literal = host
+                address, has_zone, zone = literal.partition("%")
                 try:
-                    ipaddress.ip_address(host.strip("[]").partition("%")[0])
+                    if has_zone and not (zone and all(c in unreserved for c in zone)):
+                        raise ValueError("Not a zone identifier")
+                    ipaddress.ip_address(address)
                 except ValueError:
                     # A reg-name: Uri-Host carries it percent-decoded, so
                     # anything but unreserved and sub-delims is escaped again
